@@ -59,6 +59,11 @@ def _reset():
         setattr(TS, k, v)
     for k, v in _S['mod_snapshot'].items():
         setattr(store, k, v)
+    # anything an execution stored on the harness subclass itself (rather than on the store class)
+    sub = _S.get('Sub')
+    if sub is not None:
+        for k in [k for k in vars(sub) if not (k.startswith('__') and k.endswith('__'))]:
+            delattr(sub, k)
 
 
 def _sub():
